@@ -116,11 +116,12 @@ Fixpoint walk (n : nat) (W : wsys) (focus : list string) (st : gstate) (rnd : li
   match n with
   | O => (rev bad, rev trace)
   | S n' =>
-      let '(rp, rnd1) := next_choice rnd in
+      let '(coin, rnd0) := next_choice rnd in
+      let '(rp, rnd1) := next_choice rnd0 in
       let '(rs, rnd2) := next_choice rnd1 in
       let '(ks, rnd3) := take 4 rnd2 in
       let pick :=
-          match (if Nat.even rp then focus_candidates W st focus else []) with
+          match (if Nat.even coin then focus_candidates W st focus else []) with
           | c :: cs => match nth_mod (c :: cs) rs with Some (pe, self) => Ok (Some (pe, self)) | None => Ok None end
           | [] =>
             match nth_mod (w_procs W) rp with
